@@ -21,15 +21,17 @@
                                      2^63 bytes (`DecodersTotal`: zlib inflate model, ASCII85, ASCIIHex, predictor
                                      glue - C06/C07 material, not discharged here).  Proof: Lemmas/LoaderNoPanic.lean.
     hybrid_hidden_gen0_witness       known finding #31 on the faithful model.
-  FOLLOW-UP (C03b): the end-to-end theorem for single-revision classic-table files (`load_defines_exactly_classic`,
-  `load_defines_exactly_classic_fwd`), the discharge of `ReadsAt` from C02's `spell_parse` and of the decoders'
-  no-panic clause are in Props/C03E2E.lean (this file cannot import them: their lemmas import this file).
-  `_partial` here and there - for the layouts not covered there (cross-reference streams, object streams, hybrid):
-  not closed by a theorem, decided by the correspondence run with the oracle `DocSpec.resolve`:
-  the composition with the header / startxref / trailer scans and with the decoders of C13 (table, stream,
-  /W, /Index, Flate + Up), the premise `ReadsAt` for every spelling (C02's spell_parse is itself partial),
-  object streams, hybrid files, forward-referenced /Length (second pass).  The kernel-evaluated examples at
-  the end run the WHOLE model on one concrete file per layout - they are tests, labelled as such.
+  FOLLOW-UPS: the end-to-end theorems are in separate files (this file cannot import them: their lemmas import it):
+    Props/C03E2E.lean       (C03b) single revision, classic table: load_defines_exactly_classic, _classic_fwd; `ReadsAt`
+                            discharged from C02's spell_parse; the decoders' no-panic clause
+    Props/C03E2EXref.lean   (C03c) cross-reference STREAM layouts (all /W widths, /Index, unfiltered / Flate stored blocks /
+                            Flate + predictor): load_defines_exactly_xrefstream
+    Props/C03E2EObjStm.lean (C03c) object streams and hybrid files: load_defines_exactly_objstm, _hybrid, _hybrid_objstm
+    Props/C03E2EAll.lean    (C03c) all object kinds at once incl. forward-referenced Length: _xrefstream_all, _hybrid_all
+    Props/C03Render.lean    (C03c) the generator `DocSpec.renderHistory` (kind 0, scalar values) writes a well-formed ClassicFile
+  `load_defines_exactly_partial` below stays the stage theorem those compose; what remains without an end-to-end theorem is
+  listed in checklib/props/C03.py (`partial`).  The kernel-evaluated examples at the end run the WHOLE model on one concrete
+  file per layout - they are tests, labelled as such.
 -/
 import Parsley.Props.C05
 import Parsley.Model.Loader
